@@ -171,7 +171,7 @@ def run(tier):
             scs.append(dict(scenario="c04%s2" % h, backlog=2, bound=1, glib=0))
         scs += [dict(scenario="c04h1", backlog=2, racer=1, bound=2, glib=1), dict(scenario="c04h2", backlog=2, racer=1, bound=2, glib=1),
                 dict(scenario="c04l2", backlog=1, racer=1, cycles=2, bound=2, glib=1), dict(scenario="c04h2", backlog=1, racer=2, bound=1, glib=1)]
-        dl = 200
+        dl = 400
     else:
         for h in ("h", "l"):
             for path in (1, 2, 3, 4, 5):
